@@ -97,6 +97,9 @@ def probes():
     out.append(("put_headers", {"X-Trace-Id": "abc def;=,", "X-Count": -5, "X-Flag": True, "X-List": ["a", "b c"], "x-lower": "v"}, None))
     out.append(("put_headers", {"X-Trace-Id": "t", "X-List": []}, None))
     out.append(("put_headers", {"X-Trace-Id": "t", "x-lower": "café"}, None))
+    out.append(("put_headers", {"X-Trace-Id": "t", "x-lower": ""}, None))          # an empty string is a supplied value
+    out.append(("get_dual", {"version@header": "", "mode@query": ""}, None))
+    out.append(("get_query", {"req": "r", "s": "", "shared": ""}, None))
     for body in ({"a": "x", "n": 5, "list": ["p", "q"]}, {"a": "ü \"q\" \\ \n", "n": -1}, {}):
         out.append(("post_json", {}, body))
     out.append(("patch_json_opt", {}, {"a": "x"}))
@@ -111,6 +114,104 @@ def probes():
     out.append(("post_multi", {}, {"note": "only"}))
     out.append(("post_multi_ref", {}, {"title": "Quarterly report", "count": 3, "flag": True}))
     out.append(("post_multi_ref", {}, {"title": "q\"uoted ü", "note": "n"}))
+    return out
+
+
+ALPHA = list("abzAZ09 /%?#&=+;,:@!$'()*[]~-._\"\\<>{}|^`") + ["ü", "日", "😀", "é", "\u00a0"]
+HALPHA = list("abzAZ09 /%?#&=+;,:@!$'()*[]~-._\"\\<>{}|^`")
+
+
+def rtext(rnd, alpha=ALPHA, lo=1, hi=8, ban=""):
+    return "".join(rnd.choice([c for c in alpha if c not in ban]) for _ in range(rnd.randint(lo, hi)))
+
+
+def random_probes(rnd, n):
+    """seeded probes over the same feature spec: random texts from the reserved / non-ASCII alphabet in every position"""
+    out = []
+    rint = lambda: rnd.choice([0, 1, -1, 7, 2**31 - 1, -2**31, 2**63 - 1, -2**63, rnd.randint(-10**6, 10**6)])
+    for _ in range(n):
+        k = rnd.randrange(9)
+        if k == 0:
+            out.append(("get_one", {"id": rtext(rnd)}, None))
+        elif k == 1:
+            out.append(("get_two", {"x": rtext(rnd), "y": rint()}, None))
+        elif k == 2:
+            out.append(("post_mixed", {"n": rtext(rnd), "kind": rnd.choice(["a b", "c/d", "plain"]), "ver": rint()}, None))
+        elif k == 3:
+            vals = {"req": rtext(rnd)}   # required strings are validated non-empty (C16 states the carve-out)
+            for nm in ("s", "shared"):
+                if rnd.random() < 0.5:
+                    vals[nm] = rtext(rnd, lo=0)
+            if rnd.random() < 0.4:
+                vals["over"] = rint()
+            if rnd.random() < 0.4:
+                vals["page-size"] = rint()
+            if rnd.random() < 0.3:
+                vals["flag"] = rnd.random() < 0.5
+            if rnd.random() < 0.3:
+                vals["color"] = rnd.choice(["red", "dark blue"])
+            out.append(("get_query", vals, None))
+        elif k == 4:
+            # arrays laid out by a delimiter: the items never contain that delimiter and are never empty
+            vals = {"req": "r"}
+            for nm, ban in rnd.sample([("csv", ","), ("sp", " "), ("pipe", "|"), ("sp2", " "), ("pipe2", "|")], 2):
+                vals[nm] = [rtext(rnd, ban=ban) for _ in range(rnd.randint(0, 4))]
+            if rnd.random() < 0.5:
+                vals[rnd.choice(["nums", "pnums"])] = [rnd.randint(-2**31, 2**31 - 1) for _ in range(rnd.randint(0, 4))]
+            if rnd.random() < 0.3:
+                vals["flags"] = [rnd.random() < 0.5 for _ in range(rnd.randint(1, 3))]
+            out.append(("get_query", vals, None))
+        elif k == 5:
+            vals = {}
+            for key in ("version@header", "version@query", "X-Request-Id", "mode@query", "mode@header"):
+                if rnd.random() < 0.6:
+                    vals[key] = rtext(rnd) if key.endswith("@query") else rtext(rnd, HALPHA).strip() or "h"
+            if vals:
+                out.append(("get_dual", vals, None))
+        elif k == 6:
+            vals = {"X-Trace-Id": rtext(rnd, HALPHA).strip() or "t"}
+            if rnd.random() < 0.5:
+                vals["X-Count"] = rint()
+            if rnd.random() < 0.5:
+                vals["X-Flag"] = rnd.random() < 0.5
+            if rnd.random() < 0.5:
+                vals["x-lower"] = rtext(rnd, HALPHA, lo=0).strip()
+            if rnd.random() < 0.4:
+                vals["X-List"] = [rtext(rnd, HALPHA, ban=", ") for _ in range(rnd.randint(0, 3))]
+            out.append(("put_headers", vals, None))
+        elif k == 7:
+            body = {}
+            if rnd.random() < 0.8:
+                body["a"] = rtext(rnd, ALPHA + ["\n", "\t", "\u0001"], lo=0)
+            if rnd.random() < 0.6:
+                body["n"] = rint()
+            if rnd.random() < 0.4:
+                body["list"] = [rtext(rnd, lo=0) for _ in range(rnd.randint(0, 3))]
+            out.append((rnd.choice(["post_json", "post_json", "patch_json_opt"]), {}, body if rnd.random() < 0.9 else {}))
+            if out[-1][0] == "patch_json_opt":
+                out[-1] = ("patch_json_opt", {}, {"a": body["a"]} if "a" in body else None)
+        else:
+            c = rnd.randrange(4)
+            if c == 0:
+                body = {}
+                if rnd.random() < 0.8:
+                    body["a"] = rtext(rnd, lo=0)
+                if rnd.random() < 0.5:
+                    body["b"] = rint()
+                out.append(("post_form", {}, body))
+            elif c == 1:
+                out.append(("post_text", {}, rtext(rnd, ALPHA + ["\n", "\r\n", "\t"], lo=0, hi=20)))
+            elif c == 2:
+                out.append(("put_bin", {}, [rnd.randrange(256) for _ in range(rnd.randint(0, 40))]))
+            else:
+                body = {"title": rtext(rnd, lo=1)}
+                if rnd.random() < 0.5:
+                    body["count"] = rint()
+                if rnd.random() < 0.5:
+                    body["flag"] = rnd.random() < 0.5
+                if rnd.random() < 0.5:
+                    body["note"] = rtext(rnd, ALPHA + ["\n"], lo=0)
+                out.append(("post_multi_ref", {}, body))
     return out
 
 
@@ -270,7 +371,7 @@ def main(tier, seed, replay=None):
             params = {(p["name"], p["in"]): p for p in item.get("parameters", [])}
             params.update({(p["name"], p["in"]): p for p in op.get("parameters", [])})
             ops[op["operationId"]] = {"method": m.upper(), "path": path, "params": list(params.values()), "body": op.get("requestBody")}
-    pr = probes()
+    pr = probes() + random_probes(random.Random(f"c03-{seed}"), 60 if tier == "quick" else 1500)
     if replay:
         r = json.load(open(replay))
         if "probe" in r:
@@ -348,7 +449,7 @@ def main(tier, seed, replay=None):
                 viol.append((pr[k], f"{opid} [{vn}] with {json.dumps(vals, ensure_ascii=False)[:120]}: {dsc}", cls))
     res.counts.update({"evaluations": len(blocks), "distinct_nontrivial": n_obs, "comparisons": n_obs, "traces_validated_against_impl": n_obs,
                        "operations": len(ops), "probes": len(pr),
-                       "rule": "one feature spec (methods GET/PUT/POST/DELETE/PATCH/HEAD/OPTIONS; plain, single, multiple and mixed literal/parameter templates; path-item and operation parameters with override; scalar / enum / array parameters with form (explode and not), spaceDelimited, pipeDelimited; string / integer / boolean / array headers; json, optional json, form, text, binary, multipart bodies) generated as client-mod, compiled, and every probe (reserved URL characters, non-ASCII, dot segments, empty arrays, boundary integers) sent through the generated method to a capturing TCP server; the raw request is judged: method, path segments (literals equal, parameter segments percent-decode — with the extracted Coq decoder — to the value and contain no / ? #), query pairs as a multiset against the extracted layout model, headers, body per media type; base URL with and without trailing slash and at the root"})
+                       "rule": "one feature spec (methods GET/PUT/POST/DELETE/PATCH/HEAD/OPTIONS; plain, single, multiple and mixed literal/parameter templates; path-item and operation parameters with override; scalar / enum / array parameters with form (explode and not), spaceDelimited, pipeDelimited; string / integer / boolean / array headers; json, optional json, form, text, binary, multipart bodies) generated as client-mod, compiled, and every probe (reserved URL characters, non-ASCII, dot segments, empty arrays, boundary integers) plus seeded random probes (60 quick / 1500 thorough: texts over the reserved, quoting and non-ASCII alphabet in every path, query, header, array-item and body position, boundary and random integers, random bytes) sent through the generated method to a capturing TCP server; the raw request is judged: method, path segments (literals equal, parameter segments percent-decode — with the extracted Coq decoder — to the value and contain no / ? #), query pairs as a multiset against the extracted layout model, headers, body per media type; base URL with and without trailing slash and at the root"})
     for p in pr[:4]:
         res.sample({"operation": p[0], "values": p[1]})
     res.cov["trusted_base"] = vlib.COMMON_TRUSTED + [
